@@ -38,8 +38,8 @@ PROPS = {
         "level_note": "Theorems are about the Lean models Unsync.lean and Sync.lean; tie = white-box differential runs (counters and map compared after every op) + counter/map-write site audit. Sketch table < 2^28 slots assumed. Four machine-checked counterexamples keep the repaired defects D1-D4 visible.",
     },
     "C01": {
-        "lean_modules": ["MiniMoka.Props.C01", "MiniMoka.Props.ConcSLookup", "MiniMoka.Props.ConcF", "MiniMoka.Props.ConcFLookup"],
-        "theorems": ["MiniMoka.Props.ConcF_C01",
+        "lean_modules": ["MiniMoka.Props.C01", "MiniMoka.Props.ConcSLookup", "MiniMoka.Props.ConcF", "MiniMoka.Props.ConcFLookup", "MiniMoka.Props.ConcT"],
+        "theorems": ["MiniMoka.Props.ConcT_run_fresh", "MiniMoka.Props.ConcT_get_fresh", "MiniMoka.Props.ConcT_inv_step", "MiniMoka.Props.ConcT_counterexample_ttl", "MiniMoka.Props.ConcT_counterexample_watermark", "MiniMoka.Props.ConcF_C01",
                      "MiniMoka.Props.ConcF_maintenance_only_deletes", "MiniMoka.Props.ConcF_counterexample_put_back",
                      "MiniMoka.Props.ConcS_C01",
                      "MiniMoka.Props.C01_unsync", "MiniMoka.Props.C01_sync"],
@@ -50,12 +50,12 @@ PROPS = {
         "audit_kinds": ["map_write", "map_read", "time_check"],
         "corpus": ["C01", "D6", "D7", "D12"],
         "assumptions": COMMON_ASSUME,
-        "level_text": "Unsync: proved for every configuration, hash function, weigher and history (C01_unsync: the oracle that tracks, per key, the value of the most recent insert and whether it has been invalidated accepts every trace of the model; proof by a coupling invariant between the model state and that bookkeeping, preserved by every operation). Sync: proved for the concurrent cache driven by one thread (C01_sync): every history, every placement of sync(), any number of queued operations, including the maintenance runs that insert/get/invalidate perform themselves; proof by frame lemmas over all of maintenance (the map only shrinks, last_modified never changes, last_accessed only moves forward to a queued hit) and a coupling invariant. Many threads: for every interleaving of the many-thread model ConcS.lean (calls split into map step / maintenance run / enqueue, operations ordered by their map steps) the same oracle accepts the linearised trace (ConcS_C01, and ConcF_C01 for the finest model). At the finest granularity (ConcF.lean: every map access of maintenance its own step) a maintenance micro-step only ever deletes map bindings, never writes one (ConcF_maintenance_only_deletes); the seeded 'put the victims back' change, kept as a variant, leaves a stale value in the map (ConcF_counterexample_put_back). Real threads are C02's concern.",
+        "level_text": "Unsync: proved for every configuration, hash function, weigher and history (C01_unsync: the oracle that tracks, per key, the value of the most recent insert and whether it has been invalidated accepts every trace of the model; proof by a coupling invariant between the model state and that bookkeeping, preserved by every operation). Sync: proved for the concurrent cache driven by one thread (C01_sync): every history, every placement of sync(), any number of queued operations, including the maintenance runs that insert/get/invalidate perform themselves; proof by frame lemmas over all of maintenance (the map only shrinks, last_modified never changes, last_accessed only moves forward to a queued hit) and a coupling invariant. Many threads: for every interleaving of the many-thread model ConcS.lean (calls split into map step / maintenance run / enqueue, operations ordered by their map steps) the same oracle accepts the linearised trace (ConcS_C01, and ConcF_C01 for the finest model). At the finest granularity (ConcF.lean: every map access of maintenance its own step) a maintenance micro-step only ever deletes map bindings, never writes one (ConcF_maintenance_only_deletes); the seeded 'put the victims back' change, kept as a variant, leaves a stale value in the map (ConcF_counterexample_put_back). Real threads are C02's concern. An update's clock reading and its map write as the two steps they are (ConcT.lean: any number of threads; between the reading and the write other threads advance the clock, update the key with a later reading, complete an invalidate_all): with the code's plain store of the reading into the shared timestamp — the store itself is translated from entry_info.rs on every run (group Stamps) — a value whose insert read the clock at r is never returned at a reading >= r + ttl nor after an invalidate_all with a strictly later reading has completed, for every interleaving (ConcT_run_fresh); with a forward-only store (the seeded changes C01h, C05i) both fail (ConcT_counterexample_ttl, ConcT_counterexample_watermark).",
         "level_note": "Theorems about Unsync.lean and Sync.lean; tie = differential runs (every lookup result compared) + map-site audit. The oracle also judges every implementation trace directly. Traces are judged up to the first internal panic (C08).",
     },
     "C05": {
-        "lean_modules": ["MiniMoka.Props.C05", "MiniMoka.Props.ConcSLookup", "MiniMoka.Props.ConcFLookup", "MiniMoka.Props.ConcG"],
-        "theorems": ["MiniMoka.Props.ConcG_get_fresh", "MiniMoka.Props.ConcG_counterexample_split",
+        "lean_modules": ["MiniMoka.Props.C05", "MiniMoka.Props.ConcSLookup", "MiniMoka.Props.ConcFLookup", "MiniMoka.Props.ConcG", "MiniMoka.Props.ConcT"],
+        "theorems": ["MiniMoka.Props.ConcT_run_fresh", "MiniMoka.Props.ConcT_get_fresh", "MiniMoka.Props.ConcT_inv_step", "MiniMoka.Props.ConcT_counterexample_ttl", "MiniMoka.Props.ConcT_counterexample_watermark", "MiniMoka.Props.ConcG_get_fresh", "MiniMoka.Props.ConcG_counterexample_split",
                      "MiniMoka.Props.ConcF_C05",
                      "MiniMoka.Props.ConcS_C05",
                      "MiniMoka.Props.C05_unsync", "MiniMoka.Props.C05_sync"],
@@ -67,7 +67,7 @@ PROPS = {
         "audit_kinds": ["time_check", "time_write"],
         "corpus": ["C05"],
         "assumptions": COMMON_ASSUME + ["clock readings stay far below the Instant range (checked_add cannot fail)"],
-        "level_text": "Proved for both caches, every ttl (incl. 0, with or without tti), every clock-advance pattern, history and (sync) placement of sync() with any queue state: C05_unsync, C05_sync. For every interleaving of the many-thread model ConcS.lean (operations ordered by their map steps; reads held by a thread across clock steps, updates and invalidations and enqueued late) the oracle accepts the linearised trace (ConcS_C05; ConcF_C05 for the finest model, where other threads step between the individual map accesses of maintenance). Real OS threads: stress only. The lookup's guard scope as a model of its own (ConcG.lean): ConcG_get_fresh (no value is returned at or past write time + ttl when fetch and test are atomic w.r.t. updates), ConcG_counterexample_split (guard released between fetch and test: the seeded change C05f).",
+        "level_text": "Proved for both caches, every ttl (incl. 0, with or without tti), every clock-advance pattern, history and (sync) placement of sync() with any queue state: C05_unsync, C05_sync. For every interleaving of the many-thread model ConcS.lean (operations ordered by their map steps; reads held by a thread across clock steps, updates and invalidations and enqueued late) the oracle accepts the linearised trace (ConcS_C05; ConcF_C05 for the finest model, where other threads step between the individual map accesses of maintenance). Real OS threads: stress only. The lookup's guard scope as a model of its own (ConcG.lean): ConcG_get_fresh (no value is returned at or past write time + ttl when fetch and test are atomic w.r.t. updates), ConcG_counterexample_split (guard released between fetch and test: the seeded change C05f). An update's clock reading and its map write as the two steps they are (ConcT.lean: any number of threads; between the reading and the write other threads advance the clock, update the key with a later reading, complete an invalidate_all): with the code's plain store of the reading into the shared timestamp — the store itself is translated from entry_info.rs on every run (group Stamps) — a value whose insert read the clock at r is never returned at a reading >= r + ttl nor after an invalidate_all with a strictly later reading has completed, for every interleaving (ConcT_run_fresh); with a forward-only store (the seeded changes C01h, C05i) both fail (ConcT_counterexample_ttl, ConcT_counterexample_watermark).",
         "level_note": "Theorems about Unsync.lean (timestamps live in the write-order nodes, as in the code) and Sync.lean (timestamps in the shared EntryInfo); tie = differential runs with boundary-landing clock steps + time-site audit.",
     },
     "C06": {
@@ -361,6 +361,7 @@ AGREE_THEOREMS = {
     "Admit": ["MiniMoka.Agree.unsync_admitLoop_agrees", "MiniMoka.Agree.unsync_admitOrReject_agrees",
               "MiniMoka.Agree.sync_admitLoop_agrees", "MiniMoka.Agree.sync_admitOrReject_agrees"],
     "Housekeeper": ["MiniMoka.Agree.sync_shouldApply_agrees"],
+    "Stamps": ["MiniMoka.Agree.concT_write_agrees", "MiniMoka.Agree.set_last_accessed_agrees", "MiniMoka.Agree.concT_invAll_agrees", "MiniMoka.Agree.concV_storeVa_agrees", "MiniMoka.Agree.advance_to_agrees"],
     "Counters": ["MiniMoka.Agree.unsync_invalidate_counters_agrees", "MiniMoka.Agree.unsync_invalidateAll_counters_agrees", "MiniMoka.Agree.unsync_invalidateKeys_agrees", "MiniMoka.Agree.unsync_invalidateEntriesIf_counters_agrees", "MiniMoka.Agree.unsync_handleInsert_counters_agrees", "MiniMoka.Agree.unsync_removeVictims_agrees", "MiniMoka.Agree.unsync_admitOrReject_counters_agrees", "MiniMoka.Agree.unsync_handleUpdate_counters_agrees", "MiniMoka.Agree.unsync_removeExpiredWo_agrees", "MiniMoka.Agree.unsync_removeExpiredAo_agrees", "MiniMoka.Agree.unsync_evictExpired_counters_agrees", "MiniMoka.Agree.unsync_evictLruLoop_counters_agrees", "MiniMoka.Agree.unsync_evictLru_counters_agrees", "MiniMoka.Agree.sync_subCounters_agrees", "MiniMoka.Agree.sync_addCounters_agrees", "MiniMoka.Agree.sync_applyUpdate_counters_agrees", "MiniMoka.Agree.sync_handleAdmit_counters_agrees", "MiniMoka.Agree.sync_handleRemove_counters_agrees", "MiniMoka.Agree.sync_handleRemove_deq_counters_agrees", "MiniMoka.Agree.sync_evictLruLoop_counters_agrees"],
     "Enable": ["MiniMoka.Agree.hasExpiry_agrees", "MiniMoka.Agree.unsync_evictExpiredIfNeeded_agrees",
                "MiniMoka.Agree.sync_syncRun_agrees", "MiniMoka.Agree.sync_writeOrder_agrees",
@@ -382,8 +383,8 @@ AGREE_THEOREMS = {
                "MiniMoka.Agree.tooLong_agrees_tti"],
 }
 
-LOGIC = {"C01": ["Expiry", "Lookup", "Identity"], "C02": ["Identity"], "C03": ["Capacity", "Expiry", "Lookup", "Counters"], "C04": ["Capacity", "Loops", "Counters"], "C05": ["Expiry", "Lookup", "Enable"], "C06": ["Expiry", "Lookup", "Enable"],
-         "C07": ["Expiry", "Lookup"], "C08": ["SketchArith", "SketchBits", "Identity"], "C10": ["Identity", "Counters"], "C11": ["Identity"], "C09": ["Housekeeper", "Loops"], "C12": ["Capacity", "Admit", "Loops"],
+LOGIC = {"C01": ["Expiry", "Lookup", "Identity", "Stamps"], "C02": ["Identity", "Stamps"], "C03": ["Capacity", "Expiry", "Lookup", "Counters"], "C04": ["Capacity", "Loops", "Counters"], "C05": ["Expiry", "Lookup", "Enable", "Stamps"], "C06": ["Expiry", "Lookup", "Enable", "Stamps"],
+         "C07": ["Expiry", "Lookup", "Stamps"], "C08": ["SketchArith", "SketchBits", "Identity"], "C10": ["Identity", "Counters"], "C11": ["Identity"], "C09": ["Housekeeper", "Loops"], "C12": ["Capacity", "Admit", "Loops"],
          "C13": ["Capacity", "Admit", "SketchBits"], "C14": ["SketchArith", "SketchBits"], "C16": ["Expiry", "Lookup"], "C17": ["Config", "Capacity", "Enable"]}
 for _k, _v in LOGIC.items():
     PROPS[_k]["logic"] = _v
